@@ -46,8 +46,15 @@ func (g *clientGen) socketCases() []CCase {
 	}
 	for i, n := range lens {
 		c := CCase{Kind: "echo", Buf: hex.EncodeToString(g.bytesN(n)), Typ: uint16(1000 + g.rng.Intn(64000)), Flags: uint16(syscall.NLM_F_REQUEST | syscall.NLM_F_ACK)}
-		if i%3 == 1 {
+		switch i % 5 {
+		case 1:
 			c.Flags |= uint16(g.rng.Intn(1<<16)) &^ 0x300 // never a dump request
+		case 2:
+			// a request without NLM_F_ACK: the kernel still reports the error (EOPNOTSUPP), echoing the message
+			c.Flags = uint16(syscall.NLM_F_REQUEST) | uint16(g.rng.Intn(1<<16))&^(0x300|syscall.NLM_F_ACK)
+		case 3:
+			// not a request, but NLM_F_ACK: the kernel acknowledges with errno 0, echoing the header only
+			c.Flags = uint16(syscall.NLM_F_ACK) | uint16(g.rng.Intn(1<<16))&^(0x300|syscall.NLM_F_REQUEST)
 		}
 		if i%4 == 2 {
 			c.HdrPid = 1 + g.rng.Uint32()>>1
@@ -199,14 +206,19 @@ func runEchoCase(ctx *Ctx, m *common.Model, c CCase, idx int) *common.Violation 
 	case ePid != wantPid:
 		return viol("monitor", fmt.Sprintf("C18: port id on the wire is %d, expected %d", ePid, wantPid), common.Hex(echo[:16]), "")
 	}
+	// on an error the kernel echoes the whole message, on success (errno 0) the header only
+	rErrno := -int32(binary.LittleEndian.Uint32(raw[16:]))
+	ctx.Res.Hist(fmt.Sprintf("echo_errno_%d", rErrno))
 	echoed := echo
-	if len(echoed) >= 16+len(payload) {
+	if len(echoed) >= 16+len(payload) && rErrno != 0 {
 		echoed = echoed[:16+len(payload)]
 		if !bytes.Equal(echoed[16:], payload) {
 			return viol("monitor", "C18: the payload on the wire differs from the caller's bytes", common.Hex(echoed[16:]), "")
 		}
 	} else {
-		socks.note(ctx, "echo-short", "C18 echo: the kernel echoed only the header for some requests; payload compared only where echoed")
+		if rErrno != 0 {
+			socks.note(ctx, "echo-short", "C18 echo: the kernel echoed only the header of some rejected requests; payload compared only where echoed")
+		}
 		echoed = echoed[:16]
 	}
 	// correspondence with the model's Send
